@@ -49,7 +49,7 @@ var devFrontier int
 
 func devRun(repo, root, h, tier, logq string, perms bool) int {
 	t0 := time.Now()
-	ov, err := engine.HarnessOverlay(repo, root+"/harness")
+	ov, err := buildOverlay(repo, root)
 	if err != nil {
 		fmt.Println("overlay:", err)
 		return 2
